@@ -7,6 +7,7 @@ for P in "$@"; do
   D=$(mktemp -d /tmp/scr.XXXXXX)
   git -C /repo archive HEAD | tar -x -C $D
   if [ "$P" != "-" ]; then (cd $D && git init -q . && git apply "$P" </dev/null) || { echo "$P: APPLY FAILED"; rm -rf $D; continue; }; fi
+  mkdir -p $D/.verifout; cp /verif/known_findings.json $D/.verifout/
   echo "== $P"
   VERIF_REPO=$D VERIF_BIN=$BIN VERIF_DIR=$D/.verifout /verif/check $ID quick | grep -v "^KNOWN-FINDING" | tail -${TAILN:-4} | cut -c1-${CUTN:-500}
   rm -rf $D
